@@ -110,6 +110,7 @@ pub fn run_history(ops: &[Op], seed: u64, stats: &mut Stats, tag: &str) -> Resul
     let world = World::new(&sb.dir, seed);
     let _g = world.install();
     let mut r = Runner::open(&sb.dir)?;
+    let mut vector_ever: std::collections::BTreeSet<u32> = std::collections::BTreeSet::new();
     for (i, op) in ops.iter().enumerate() {
         let out = r.exec(op);
         stats.inc("evaluations");
@@ -129,7 +130,23 @@ pub fn run_history(ops: &[Op], seed: u64, stats: &mut Stats, tag: &str) -> Resul
         if !r.model.g.nodes.is_empty() {
             stats.see("state_op_pairs", r.model.g.digest() ^ crate::prng::fnv(op.kind()));
         }
-        let diffs = discrepancies(&d, &r.model);
+        let mut diffs = discrepancies(&d, &r.model);
+        if diffs.is_empty() && (tag == "C07" || tag == "C28") {
+            // vector search must be unaffected by abandoned transactions / vacuum
+            if let Op::Txn { ops: tops, .. } = op {
+                for t in tops {
+                    if let TOp::SetVector { node, .. } = t {
+                        vector_ever.insert(*node);
+                    }
+                }
+            }
+            if !vector_ever.is_empty() {
+                stats.inc("probe:vector_search_compared");
+                for (c, t) in crate::checks::vector::vector_discrepancies(r.engine(), &r.model, vector_ever.len()) {
+                    diffs.push((format!("vec:{c}"), t));
+                }
+            }
+        }
         if !diffs.is_empty() {
             let detail: Vec<String> = diffs.iter().take(6).map(|(c, d)| format!("[{c}] {d}")).collect();
             return Ok(Some(FirstBad {
